@@ -51,6 +51,29 @@ func (t *HTag) BeforeCreate(tx *gorm.DB) error {
 	return nil
 }
 
+// HOwner and its relations: what Select(<relations>).Delete walks.
+type HOwner struct {
+	ID   int64 `gorm:"primaryKey"`
+	Acct *HAcct
+	Kids []HKid
+}
+
+type HAcct struct {
+	ID       int64 `gorm:"primaryKey"`
+	HOwnerID int64
+}
+
+type HKid struct {
+	ID       int64 `gorm:"primaryKey"`
+	HOwnerID int64
+	Toys     []HToy
+}
+
+type HToy struct {
+	ID     int64 `gorm:"primaryKey"`
+	HKidID int64
+}
+
 // genStep builds one chain-method call from a seed; calling it twice with the same seed
 // yields equal but independent argument values (history vs. isolated replay).
 func genStep(seed uint64, root *gorm.DB) step06 {
@@ -141,6 +164,14 @@ func genStep(seed uint64, root *gorm.DB) step06 {
 	case k == 29:
 		c := g.simpleCond(root, 0)
 		return step06{desc: "Where(" + c.desc + ")", apply: func(db *gorm.DB) *gorm.DB { return db.Where(c.query, c.args...) }}
+	case k == 30:
+		// relations selected for a delete (with a nested path), in the orders an application may write them
+		sels := [][]string{{"Acct", "Kids", "Kids.Toys"}, {"Kids", "Kids.Toys", "Acct"}, {"Kids.Toys", "Kids"}, {"Acct", "Kids"}}[(seed>>5)%4]
+		args := make([]interface{}, len(sels)-1)
+		for i, x := range sels[1:] {
+			args[i] = x
+		}
+		return step06{desc: fmt.Sprintf("Select(%q...)", sels), apply: func(db *gorm.DB) *gorm.DB { return db.Select(sels[0], args...) }}
 	case k == 26:
 		// a call gorm rejects: the error belongs to this chain only
 		return step06{desc: "Select(123)", apply: func(db *gorm.DB) *gorm.DB { return db.Select(123) }}
@@ -150,7 +181,7 @@ func genStep(seed uint64, root *gorm.DB) step06 {
 	return step06{desc: "Model(&Tag{})", apply: func(db *gorm.DB) *gorm.DB { return db.Model(&Tag{}) }}
 }
 
-var finishers06 = []string{"Find", "First", "Take", "Count", "Pluck", "Scan", "Update", "Updates", "Delete", "Create", "Save", "CountDirect", "CreateHooked", "SaveHooked", "FindInBatches", "Rows"}
+var finishers06 = []string{"Find", "First", "Take", "Count", "Pluck", "Scan", "Update", "Updates", "Delete", "Create", "Save", "CountDirect", "CreateHooked", "SaveHooked", "FindInBatches", "Rows", "DeleteOwner"}
 
 func genFinisher(seed uint64) (string, func(db *gorm.DB) *gorm.DB) {
 	g := newGen(core.NewRand(seed))
@@ -184,6 +215,9 @@ func genFinisher(seed uint64) (string, func(db *gorm.DB) *gorm.DB) {
 			// the handle's own model / table, no Model() in front (the usual total of a paginated list)
 			var n int64
 			return db.Count(&n)
+		case "DeleteOwner":
+			// a delete that walks the selected relations of its model (has one, has many, a nested path)
+			return db.Model(&HOwner{}).Delete(&HOwner{ID: 1})
 		case "FindInBatches":
 			return db.FindInBatches(&[]Tag{}, 2, func(tx *gorm.DB, batch int) error { return nil })
 		case "Rows":
@@ -303,6 +337,10 @@ func fmtStmt(db *gorm.DB) string {
 	if db.Statement.SkipHooks {
 		s += " skiphooks"
 	}
+	if len(db.Statement.Selects) > 0 {
+		// what a finisher that walks relations (delete with selected associations) will act on
+		s += fmt.Sprintf(" selects=%q", db.Statement.Selects)
+	}
 	if _, inTx := db.Statement.ConnPool.(gorm.TxCommitter); inTx {
 		s += " in-transaction"
 	}
@@ -345,6 +383,9 @@ type event06 struct {
 
 func run06(c *core.Ctx) {
 	r := c.R
+	for i := 0; i < 3; i++ {
+		reexec06(c)
+	}
 	h := open06()
 	defer h.Close()
 	root := h.DB
@@ -387,6 +428,9 @@ func run06(c *core.Ctx) {
 	palette := make([]int, r.Range(1, 5))
 	for i := range palette {
 		palette[i] = r.Intn(28)
+	}
+	if r.Chance(1, 4) {
+		palette = append(palette, 30, 30)
 	}
 	stepSeed := func() uint64 { return (r.U64() &^ 31) | uint64(core.Pick(r, palette)) }
 	for i := 0; i < nops; i++ {
